@@ -3,6 +3,7 @@ real wheel with the real geometry (TimerWheelTrace.tla); cache-level sequential 
 (CacheTrace.tla: sweep.late at every CleanUp); racing-write scenarios through a stalling clock (SweepHist.tla)."""
 import concurrent.futures as cf
 import json
+import re
 import os
 import time
 
@@ -160,6 +161,17 @@ def read_race_half(prop, tier, mc_out=None):
                 mc_out.extend(mc)
             if mbroken:
                 return 0, [], mbroken
+            # B2: simulated behaviours of the model replayed as schedules on the real cache
+            rn, conf, rviol, rbroken = expire_race_replays(work, tier, seed)
+            if rbroken:
+                return 0, [], rbroken
+            vlib.log("ExpireRace.tla behaviours replayed on the real cache: %s" % {k: v for k, v in conf.items() if k != "samples"})
+            if mc_out is not None:
+                mc_out.append(dict({"instance": "ExpireRace.tla behaviours replayed on the real cache (B2)", "distinct": 0, "generated": 0}, **conf))
+            replay_viol = []
+            for pred, detail, rsc in rviol:
+                if pred.startswith("C06."):
+                    replay_viol.append((pred, detail, vlib.save_replay(prop, "readrace-%d-replay" % seed, {"seed": seed, "scenario": rsc})))
         obin = vlib.build_test_binary(work, "otter")
         inp, outp, dv, jp = (os.path.join(work, x) for x in ("rr.in.json", "rr.out.ndjson", "rr.dev.json", "rr.judge.ndjson"))
         with open(inp, "w") as f:
@@ -197,6 +209,9 @@ def read_race_half(prop, tier, mc_out=None):
             continue
         path = vlib.save_replay(prop, "readrace-%d" % seed, {"seed": seed, "scenario": scs[x["rec"] - 1]})
         viol.append((x["pred"], x["detail"], path))
+    if prop == "C06":
+        viol += replay_viol
+        return d["n"] + rn, viol, []
     return d["n"], viol, []
 
 
@@ -410,3 +425,116 @@ def run(prop, tier, replay=None):
             vlib.log("  %s: %s" % (pred, str(detail)[:300]))
         return 1
     return 0
+
+
+# ------------------------------------------------------------------ B2 for ExpireRace.tla: simulated behaviours replayed on the real cache
+
+_ER_STEP = re.compile(r"^\\\* <(\w+)(?:\((-?\d+)\))? line")
+_ER_VAR = re.compile(r"^/\\ (\w+) = (.*)$")
+
+
+def _er_parse(path):
+    """one TLC -simulate behaviour -> (labels in order, variables of the last state as text)"""
+    labels, last = [], {}
+    with open(path) as f:
+        for line in f:
+            m = _ER_STEP.match(line)
+            if m:
+                labels.append(m.group(1))
+                last = {}
+                continue
+            m = _ER_VAR.match(line.rstrip("\n"))
+            if m:
+                last[m.group(1)] = m.group(2)
+    return [x for x in labels if x != "Init"], last
+
+
+def expire_race_replays(work, tier, seed):
+    """Behaviours of ExpireRace.tla (the repaired protocol) from TLC's simulation mode, replayed as schedules on the real cache
+    (harness/otter/verif_erreplay_test.go).  Returns (records judged, conformance dict, [(pred, detail, scenario)], broken)."""
+    quick = tier == "quick"
+    num = 60 if quick else 600
+    scen, expect = [], []
+    broken = []
+    for ci, (wk, sized) in enumerate([("", 0), ("set", 0), ("setifabsent", 1), ("set", 1), ("setifabsent", 0)]):
+        cfg = os.path.join(work, "ersim_%d.cfg" % ci)
+        with open(cfg, "w") as f:
+            # (the model without size pressure: the real cache, bounded or not, is never above its maximum in these replays)
+            f.write(expire_race_cfg(1, 1, 3, 5, 1, False, True, writer=wk).split("INVARIANTS")[0])
+        simdir = os.path.join(work, "ersim_%d" % ci)
+        os.makedirs(simdir, exist_ok=True)
+        r = vlib.run_tlc(work, "ExpireRace", cfg, workers=1, timeout=600, heap="2g",
+                         simulate="file=%s/t,num=%d" % (simdir, num), extra=["-depth", "90", "-seed", str(seed * 31 + ci)])
+        if r["rc"] != 0 and "Finished in" not in r["out"]:
+            broken.append("TLC simulation of ExpireRace failed: " + r["out"][-800:])
+            continue
+        seen = set()
+        for fn in sorted(os.listdir(simdir)):
+            labels, last = _er_parse(os.path.join(simdir, fn))
+            key = tuple(labels)
+            if key in seen or "f_sweep" not in labels:
+                continue        # (only complete behaviours: the last maintenance run has happened)
+            seen.add(key)
+            # (the ticker's last step leaves its loop without moving the clock: only the first MaxClock steps T0 are ticks)
+            ticks, steps = 0, []
+            for lab in labels:
+                if lab == "T0":
+                    ticks += 1
+                    if ticks > 5:
+                        continue
+                steps.append(lab)
+            labels = steps
+            scen.append({"steps": labels, "wkind": wk, "sized": sized, "ttl": 3, "id": len(scen)})
+            expect.append(last)
+    if not scen:
+        return 0, {}, [], broken + ["no complete behaviour of ExpireRace.tla was simulated"]
+    obin = vlib.build_test_binary(work, "otter")
+    inp, outp, dv, jp = (os.path.join(work, x) for x in ("er.in.json", "er.out.ndjson", "er.dev.json", "er.judge.ndjson"))
+    with open(inp, "w") as f:
+        json.dump(scen, f)
+    rc, out = vlib.run_test_binary(obin, "TestVerifExpireReplay", {"VERIF_IN": inp, "VERIF_OUT": outp}, timeout=1200)
+    if rc != 0:
+        return 0, {}, [], broken + ["ExpireRace replay driver failed:\n" + out[-2000:]]
+    conf = {"behaviours": len(scen), "all_steps_followed": 0, "outcome_as_in_model": 0, "outcome_differs": 0, "steps": 0, "steps_not_followed": 0, "samples": []}
+    with open(outp) as f, open(jp, "w") as g:
+        for line, exp in zip(f, expect):
+            r = json.loads(line)
+            sc = r["sc"]
+            a = [e for e in r["events"] if e["h"] == "A" and e["v"] == 11]
+            d = [e for e in r["events"] if e["h"] == "D" and e["v"] == 11]
+            # what the model says about the first value: removed by the sweeper (events), replaced by the writer (atomicCause), or still there
+            m_removed = "cause |->" in exp.get("events", "")
+            m_cause = ""
+            if m_removed:
+                m_cause = re.search(r'cause \|-> "(\w+)"', exp["events"]).group(1)
+            elif exp.get("atomicCause", '"none"') != '"none"':
+                m_cause = exp["atomicCause"].strip('"')
+            # compared: does the first value (11) survive, and with which cause did it leave (the node a writer stores is modelled only as far
+            # as its event goes - a reader may hit it, the final run may sweep it - so it is left out of the comparison)
+            real = (r["mapped"] == 11, a[0]["c"] if a else "")
+            model = (exp.get("mapped") == "TRUE", m_cause)
+            conf["steps"] += len(sc["steps"])
+            conf["steps_not_followed"] += r["drift"]
+            if r["drift"] == 0 and r["hang"] == 0:
+                conf["all_steps_followed"] += 1
+                if real == model:
+                    conf["outcome_as_in_model"] += 1
+                else:
+                    conf["outcome_differs"] += 1
+                    if len(conf["samples"]) < 3:
+                        conf["samples"].append({"steps": sc["steps"], "wkind": sc["wkind"], "real": real, "model": model})
+            j = {"t": "sweep", "hang": r["hang"], "mustsweep": 0, "deadlinepassed": 0, "tickns": 0, "est": r["est"], "estmid": 0, "visible": 0,
+                 "expired": 0, "other": 0, "live": r["live"], "cold": r["cold"] if sc["sized"] else r["live"], "overflow": sum(1 for e in r["events"] if e["c"] == "Overflow"),
+                 "gated": 0, "nopressure": 1, "midpresent": 0, "midalive": 0, "inserted": 0, "massn": 0, "massexpired": 0, "overlap": 0, "ldruns": 0,
+                 "atomiccause": a[0]["c"] if a else "", "asynccause": d[0]["c"] if d else "",
+                 "twice": 1 if (len(a) > 1 or len(d) > 1) else 0,
+                 "sc": {"ttl": "3", "jump": "0", "later": "0", "op": "replay." + (sc["wkind"] or "none"), "sized": sc["sized"], "syncexec": 0, "warm": 0, "warmlive": 0, "max": 50}}
+            g.write(json.dumps(j) + "\n")
+    t = vlib.run_tlc(work, "SweepHist", os.path.join(vlib.SPEC, "SweepHist.cfg"), workers=1, timeout=600, heap="2g",
+                     env_extra={"VERIF_TRACE": jp, "VERIF_DEVOUT": dv})
+    if not vlib.tlc_ok(t) or not os.path.exists(dv):
+        return 0, conf, [], broken + ["SweepHist did not complete:\n" + t["out"][-2500:]]
+    with open(dv) as f:
+        dd = json.load(f)
+    viol = [(x["pred"], x["detail"], scen[x["rec"] - 1]) for x in dd["devs"]]
+    return dd["n"], conf, viol, broken
